@@ -348,7 +348,7 @@ theorem np_wsDrop {w0 w : World} (c : Nat) (h : NP w0 w) : NP w0 (wsDrop w c) :=
   try dsimp only
   split
   · np_auto
-  · split <;> np_auto
+  · split <;> (try split) <;> np_auto
 
 theorem np_appClose {w0 w : World} (sid : Nat) (discard : Bool) (h : NP w0 w) : NP w0 (appClose w sid discard) := by
   unfold appClose
